@@ -424,6 +424,9 @@ def p5_merge_outputs_before_unlink(ctx):
     asc = "std::collections::BTreeSet<u64>" in out_ty
     r.add(f, "selection set iterates in ascending id order (BTreeSet<u64>)", asc, where(b, sbb), "fileids_to_merge returns %s" % out_ty)
     nb = m.unlink_loop_next
+    it_o = arg_origin(b, b.term(nb), 0)
+    adapters = origin_mentions(it_o, lambda x: x[0] == "call" and x[1] and x[1].split("::")[-1] in ("rev", "skip", "take", "step_by", "filter", "skip_while", "take_while", "chain", "rposition"))
+    r.add(f, "the unlink loop walks the selection set front to back, all of it", not adapters, where(b, nb), "" if not adapters else "iterator adapter %s on the selection: inputs are not removed oldest-first (a kill in between can leave a value file without the tombstone file that deletes it) or not all of them" % adapters[0][1].split("::")[-1])
     some_dst = None
     info = None
     for bb in b.live_blocks():
